@@ -560,7 +560,12 @@ class Interp:
 
     def assign(self, target, value, st, fr):
         if isinstance(target, ast.Name):
-            return st.set(fr.local(target.id), value)
+            key = fr.local(target.id)
+            hook = getattr(self.domain, "rebound", None)
+            if hook is not None and st.has(key):
+                old = st.get(key)
+                return hook(old, st.set(key, value), fr)
+            return st.set(key, value)
         if isinstance(target, ast.Attribute):
             ch = attr_chain(target)
             if ch and fr.selfname and ch[0] == fr.selfname:
